@@ -87,6 +87,14 @@ func c20Program(c *C20Case) (prog string, input string, expect string) {
 			return pre + "a = [1, 2, 3]\na[" + n + "] = 1\nprint a.length() }", "", "LEN"
 		case "write-nested":
 			return pre + "a[2][" + n + "] = 1\nprint a[2].length() }", "", "LEN"
+		case "write-intermediate":
+			// the large index is not the last one of the target: the array comes into being, and
+			// is filled, as a missing intermediate of the store
+			return pre + "a[" + n + "][0] = 1\nprint a.length() }", "", "LEN"
+		case "write-intermediate-member":
+			return pre + "o.list[" + n + "].k = 1\nprint o.list.length() }", "", "LEN"
+		case "write-intermediate-document":
+			return "{ print \"pre\"\n$.list[" + n + "][1] = 1\nprint $.list.length() }", "{\"list\":[]}", "LEN"
 		case "read-existing":
 			return pre + "a = [1, 2, 3]\nx = a[" + n + "]\nprint a.length() }", "", "READ"
 		case "write-input-index":
@@ -272,6 +280,9 @@ func c20Ladders(thorough bool) []c20Ladder {
 	}
 	ls = append(ls, c20Ladder{"index", "write-existing", short, []string{"1000", "999999"}, []string{"2000000", "1000000000000000000"}})
 	ls = append(ls, c20Ladder{"index", "write-nested", short, []string{"1000", "999999"}, []string{"2000000", "1000000000000000000"}})
+	for _, sh := range []string{"write-intermediate", "write-intermediate-member", "write-intermediate-document"} {
+		ls = append(ls, c20Ladder{"index", sh, short, []string{"1000", "999999"}, []string{"2000000", "1000000000000000000"}})
+	}
 	ls = append(ls, c20Ladder{"index", "write-stepwise", []string{"900000", "1800000", "2700000", "9000000"}, []string{"900000"}, []string{"2700000", "9000000"}})
 	ls = append(ls, c20Ladder{"index", "incr-fresh", []string{"1000", "1048576", "1048577", "2000000"}, []string{"1000"}, []string{"2000000"}})
 	ls = append(ls, c20Ladder{"index", "write-input-index", []string{"1000", "1048577", "2000000", "1e18", "1e300"}, []string{"1000"}, []string{"2000000", "1e18", "1e300"}})
